@@ -153,8 +153,14 @@ func ParseBackX(path, src string) (out map[string]string, syntaxErr bool, err er
 				entries[n.GetName()] = n
 			}
 		}
-		for _, oo := range m.OneofDecl {
-			if strings.HasPrefix(oo.GetName(), "_") {
+		synthetic := map[int32]bool{}
+		for _, f := range m.Field {
+			if f.OneofIndex != nil && f.GetProto3Optional() {
+				synthetic[f.GetOneofIndex()] = true
+			}
+		}
+		for oi, oo := range m.OneofDecl {
+			if synthetic[int32(oi)] {
 				continue // synthetic oneof of a proto3 optional field
 			}
 			var ov proto.Message
